@@ -102,6 +102,17 @@ type lockSummary struct {
 	Acq  lockState       // held at every return (not held at entry)
 	Rel  map[string]bool // may be released relative to entry
 	Reqs []lockReq
+	// Takes: lock classes that may be acquired somewhere inside (transitively), with the call chain to the
+	// primitive acquisition (LOCK-ORDER)
+	Takes map[string][]string
+}
+
+// orderEdge: lock class To was acquired (possibly deep inside a callee) while From was certainly held.
+type orderEdge struct {
+	From, To string
+	In       string   // function holding From
+	Where    string   // position of the acquisition / call
+	Chain    []string // call chain from In to the primitive acquisition
 }
 
 type locksetEngine struct {
@@ -133,6 +144,19 @@ type locksetEngine struct {
 	// extra: treat an arbitrary instruction as an access to a pseudo-field that needs a lock
 	// (e.g. "storage write" or "grant privilege" must happen under the state's write lock)
 	extra func(fn *ssa.Function, ins ssa.Instruction) (fkey, lock, access string, ok bool)
+	// LOCK-ORDER: "from->to" -> first witness
+	order map[string]*orderEdge
+}
+
+func (e *locksetEngine) addOrder(from, to string, fn *ssa.Function, at ssa.Instruction, chain []string) {
+	if e.order == nil {
+		e.order = map[string]*orderEdge{}
+	}
+	k := from + "->" + to
+	if _, ok := e.order[k]; ok {
+		return
+	}
+	e.order[k] = &orderEdge{From: from, To: to, In: fname(fn), Where: e.w.PosOf(at), Chain: chain}
 }
 
 func newLocksetEngine(w *World, guards []*guardSpec) *locksetEngine {
@@ -701,6 +725,17 @@ func (e *locksetEngine) applyCall(fn *ssa.Function, ci ssa.CallInstruction, st *
 			return
 		}
 		if acq {
+			if collect && out != nil {
+				for h := range st.held {
+					e.addOrder(h, id, fn, ci, []string{fname(fn)})
+				}
+				if out.Takes == nil {
+					out.Takes = map[string][]string{}
+				}
+				if _, ok := out.Takes[id]; !ok {
+					out.Takes[id] = []string{fname(fn)}
+				}
+			}
 			st.held[id] = mode
 		} else {
 			if _, held := st.held[id]; held {
@@ -734,6 +769,23 @@ func (e *locksetEngine) applyCall(fn *ssa.Function, ci ssa.CallInstruction, st *
 		}
 		for k := range sub.Rel {
 			rel[k] = true
+		}
+		if collect && out != nil && !deferred {
+			for m, chain := range sub.Takes {
+				full := append([]string{fname(fn)}, chain...)
+				for h := range st.held {
+					if h == m && sub.Rel[m] {
+						continue // the callee gives the lock up before it takes it again
+					}
+					e.addOrder(h, m, fn, ci, full)
+				}
+				if out.Takes == nil {
+					out.Takes = map[string][]string{}
+				}
+				if _, ok := out.Takes[m]; !ok {
+					out.Takes[m] = full
+				}
+			}
 		}
 		if collect && out != nil {
 			for _, q := range sub.Reqs {
@@ -1079,7 +1131,12 @@ func (e *locksetEngine) solveAll() {
 				rl = append(rl, l)
 			}
 			sort.Strings(rl)
-			ks = append(ks, k+"{"+strings.Join(rs, ",")+"}{"+strings.Join(as, ",")+"}{"+strings.Join(rl, ",")+"}")
+			var tk []string
+			for l := range v.Takes {
+				tk = append(tk, l)
+			}
+			sort.Strings(tk)
+			ks = append(ks, k+"{"+strings.Join(rs, ",")+"}{"+strings.Join(as, ",")+"}{"+strings.Join(rl, ",")+"}{"+strings.Join(tk, ",")+"}")
 		}
 		sort.Strings(ks)
 		return strings.Join(ks, "\n")
@@ -1087,6 +1144,7 @@ func (e *locksetEngine) solveAll() {
 	last := ""
 	for round := 0; round < 8; round++ {
 		e.memo = map[string]*lockSummary{}
+		e.order = nil
 		e.accesses, e.lockOps, e.fnAnalysed, e.freshExempt = 0, 0, 0, 0
 		for _, fn := range e.w.Funcs {
 			if isTestFile(e.w, fn) || fn.Synthetic != "" {
